@@ -58,7 +58,9 @@ def build_pose(case):
     fmt = "XYZWVU"[:D] + "C"
     comps = [PoseHeaderComponent("c%d" % i, ["p%d_%d" % (i, j) for j in range(n)], [(0, 0)] if n else [], [(1, 2, 3)] if n else [], fmt)
              for i, n in enumerate(case["comps"])]
-    header = PoseHeader(0.2, PoseHeaderDimensions(7, 8, 9), comps)
+    # "bbox_header": the input is itself a pose of boxes (two points per component, header flagged is_bbox) whose corner
+    # points are in no particular order - what bbox() returns after a flip / rotation; its boxes must be recomputed too
+    header = PoseHeader(0.2, PoseHeaderDimensions(7, 8, 9), comps, is_bbox=bool(case.get("bbox_header")))
     return Pose(header, NumPyPoseBody(30.0, data, conf))
 
 
@@ -178,6 +180,9 @@ def gen_case(rng, op=None):
         F, P = max(F, 1), max(P, 1)
     ncomp = rng.choice([1, 2, 2, 3, 4])
     comps = [rng.choice([0, 1, 1, 2, 2, 3, 4]) if rng.random() < 0.25 else rng.randrange(1, 5) for _ in range(ncomp)]
+    bbox_header = (op == "bbox" and rng.random() < 0.25)
+    if bbox_header:
+        comps = [2] * ncomp
     N = sum(comps)
     dt = rng.choice(["f32", "f32", "f64"])
     style = rng.choice(["any", "any", "any", "ints", "nonneg0"])
@@ -212,6 +217,8 @@ def gen_case(rng, op=None):
         conf[rng.randrange(len(conf))] = -0.0
     case = {"op": op, "dtype": dt, "shape": [F, P, N, D], "comps": comps, "data": words(data), "conf": words(conf),
             "mask": None, "pat": pat, "kind": "plain"}
+    if bbox_header:
+        case["bbox_header"] = True
     # negative zero / NaN confidences are distinguished by the words
     case["conf"] = [struct.unpack("<Q", struct.pack("<d", c))[0] for c in conf]
     if rng.random() < 0.08 and F * P * N * D > 0:
@@ -323,6 +330,8 @@ class C15(common.Prop):
             sub = case["matrix"]["kind"]
         elif case["op"] == "augment2d":
             sub = "".join("+" if f64(w) > 0 else "0" for w in case["stds"])
+        elif case["op"] == "bbox":
+            sub = "boxes-in" if case.get("bbox_header") else ""
         elif case["op"] == "flip":
             sub = "inrange" if -D <= case["axis"] < D else "out"
         return (case["op"], sub, D, case["dtype"], case.get("pat"), case.get("kind"), "empty" if F * P * N == 0 else "data",
